@@ -43,7 +43,9 @@ MulQ(x, y) ==
 
 \* mean of n codes with sum s, as a Q24 fraction of full scale (code / den)
 Scale == 16777216 \div den
-MeanQ(s, n) == (s \div n) * Scale + ((s % n) * Scale) \div n
+\* (n <= 0: a controller whose buffer is no longer than the lift allowance - reported where it is built, as
+\* C15:capacity; the mean is then left at 0 rather than dividing by zero)
+MeanQ(s, n) == IF n <= 0 THEN 0 ELSE (s \div n) * Scale + ((s % n) * Scale) \div n
 \* the pull-up correction of the code: m - (m - m^2) * ec
 CorrQ(m) == m - MulQ(m - MulQ(m, m), ecq)
 
